@@ -785,8 +785,10 @@ where
                         P,
                         &sig,
                         format!(
-                            "{} answered {:?} instead of reporting staleness: the hull was created at generation {} from a different state (after step {}), the queried triangulation now has generation {} ({}, last op {})",
-                            qu.kind, o, h.generation, h.created_step, cur_gen, context, opkind
+                            "{} answered {:?} instead of reporting staleness: the hull was created at generation {} {} (after step {}), the queried triangulation now has generation {} ({}, last op {})",
+                            qu.kind, o, h.generation,
+                            if opkind.ends_with("+rolled-back") { "and an operation has since edited the triangulation, failed and been rolled back" } else { "from a different state" },
+                            h.created_step, cur_gen, context, opkind
                         ),
                         detail("answered after change", shared.flatten().map(|x| !x)),
                     );
@@ -942,6 +944,29 @@ const SITES_REMOVE: [&str; 5] = ["tri/remove/after_fan_fill", "tri/remove/after_
 const SITES_FLIP: [&str; 4] = ["flip/after_insert_cells", "flip/after_wire", "flip/after_remove_cells", "flip/k1_inverse/after_flip"];
 const SITES_REPAIR: [&str; 4] = ["repair/after_attempt3", "dt/repair_advanced/before_commit", "flip/after_wire", "flip/after_remove_cells"];
 
+/// Failpoint sites that lie behind the first edit of the operation that contains them (the hook
+/// records every site an operation passes, armed or not).
+const POST_EDIT_SITES: [&str; 18] = [
+    "flip/after_insert_cells",
+    "flip/after_wire",
+    "flip/after_remove_cells",
+    "flip/k1_inverse/after_flip",
+    "tri/insert/after_vertex",
+    "tri/insert/after_bootstrap",
+    "tri/insert/after_fill_cavity",
+    "tri/insert/after_wire",
+    "tri/insert/after_remove_conflict",
+    "tri/insert/after_normalize",
+    "tri/insert/after_validate",
+    "dt/insert/repair",
+    "dt/insert/check",
+    "tri/remove/after_fan_fill",
+    "tri/remove/after_wire",
+    "tri/remove/after_remove_cells",
+    "tri/remove/after_incidence",
+    "tri/remove/after_vertex_removed",
+];
+
 fn site_for(rng: &mut Rng, kind: &str) -> &'static str {
     match kind {
         "insert" | "insert_with_statistics" => *rng.pick(&SITES_INSERT),
@@ -973,7 +998,9 @@ where
         if let Some((site, skip)) = failpoint {
             verif::arm(site, skip);
         }
+        verif::trace_start();
         let res = hist::apply(&mut self.dt, &op);
+        let trace = verif::trace_take();
         let mut fired = false;
         if failpoint.is_some() {
             let _ = verif::disarm();
@@ -1007,7 +1034,17 @@ where
         if let Res::RepairOk { heuristic: true, .. } = r {
             out.count("step/heuristic_rebuild_reported");
         }
-        self.observe(rng, out, op.kind(), force_hull);
+        // "including failed and rolled-back ones": an operation that reports failure after it passed a
+        // site that lies behind its first edit of the complex has changed the triangulation (and changed
+        // it back); hulls created before it must report staleness from now on.
+        let failed = label.starts_with("Err") || label.starts_with("Skipped");
+        let edited = trace.iter().any(|s| POST_EDIT_SITES.contains(s));
+        let rolled_back = failed && edited;
+        if rolled_back {
+            out.count("step/failed-after-first-edit");
+            out.count(&format!("step/failed-after-first-edit/{}", op.kind()));
+        }
+        self.observe(rng, out, op.kind(), force_hull, rolled_back);
         // memory upkeep (same as the history engine)
         let post = &self.cur_m;
         for c in &pre.cells {
@@ -1029,7 +1066,7 @@ where
     }
 
     /// After-step processing: lineage bookkeeping, querying the pool, creating new hulls.
-    fn observe(&mut self, rng: &mut Rng, out: &mut Out, opkind: &str, force_hull: bool) {
+    fn observe(&mut self, rng: &mut Rng, out: &mut Out, opkind: &str, force_hull: bool, rolled_back: bool) {
         let m = RefModel::from_dt(&self.dt);
         let fp = fingerprint::keyfree(&m);
         let gen_now = self.dt.tds().generation();
@@ -1041,7 +1078,10 @@ where
         let mut events: Vec<Value> = Vec::new();
         let scenario = self.scenario;
         for (i, e) in self.pool.iter_mut().enumerate() {
-            let changed = e.fp != fp;
+            let same_state = e.fp == fp;
+            let changed = !same_state || rolled_back;
+            let rb_kind = format!("{}+rolled-back", opkind);
+            let opkind: &str = if same_state && rolled_back { &rb_kind } else { opkind };
             let info = HullInfo { hull: &e.hull, facets: &e.facets, qs: &e.qs, generation: e.generation, created_step: e.created_step, sentinel: Some(&e.sentinel) };
             {
                 let base = &self.base;
@@ -1222,7 +1262,7 @@ where
     let base = json!({"property": P, "case_seed": cs.to_string(), "D": D, "kernel": kn.name(), "start": start, "initial_policies": init.iter().map(|o| o.to_json()).collect::<Vec<_>>()});
     let with_clones = rng.chance(1, 2);
     let mut drv = Drv::new(dt, mem, base, "history", with_clones);
-    drv.observe(rng, out, "start", true);
+    drv.observe(rng, out, "start", true, false);
     let len = if thorough { 20 + rng.usize(60) } else { 8 + rng.usize(24) };
     let len = if D >= 4 { len / 2 + 3 } else { len };
     drv.random_steps(ctx, rng, out, &Mix::everything(), len, true);
@@ -1354,13 +1394,13 @@ where
     let _ = hist::apply(&mut dt, &Op::SetRepairPolicy(0));
     let mut drv = Drv::new(dt, mem, base0, "repair-rebuild", false);
     // a hull of the freshly constructed object: a rebuilt candidate of the same vertex set may end at the same counter value
-    drv.observe(rng, out, "start", true);
+    drv.observe(rng, out, "start", true, false);
     let want = 2 + rng.usize(if thorough { 20 } else { 8 });
     let (done, plog) = perturb(&mut drv.dt, rng, want, gu, true);
     out.add("rebuild/perturb_flips_kept", done as u64);
     drv.log.push(json!({"event": "random walk of geometrically valid flips (c04::perturb)", "flips": plog, "generation_after": drv.dt.tds().generation()}));
     drv.steps += 1;
-    drv.observe(rng, out, "flips", true);
+    drv.observe(rng, out, "flips", true, false);
     let rounds = if thorough { 6 } else { 3 };
     for _ in 0..rounds {
         if drv.dead || ctx.out_of_time() {
